@@ -369,10 +369,12 @@ Section Through.
   (* acknowledge timing of the composite's Wishbone side *)
   Lemma ack_through :
     (forall j, (j <= R)%nat -> B.o_ack (wb_out_at bc mc tr (t0 + j)) = false) /\
-    B.o_ack (wb_out_at bc mc tr (t0 + R + 1)) = true.
+    B.o_ack (wb_out_at bc mc tr (t0 + R + 1)) = true /\
+    BP.idle (fst (cstate_at bc mc tr (t0 + R + 2))).
   Proof.
-    destruct (BP.transfer bc bt t0 Hwf Hidle' Hreq') as (_ & _ & Hno & Hyes & _).
-    split; [intros j Hj|]; rewrite wb_out_is_out_at; auto.
+    destruct (BP.transfer bc bt t0 Hwf Hidle' Hreq') as (_ & _ & Hno & Hyes & _ & _ & Hid).
+    split; [intros j Hj; rewrite wb_out_is_out_at; auto|].
+    split; [rewrite wb_out_is_out_at; auto|]. rewrite fst_cstate. exact Hid.
   Qed.
 End Through.
 
@@ -402,7 +404,8 @@ Theorem atomic_write_through_mux bc mc tr t0 k r :
     Some (assemble (M.c_dw mc) (M.r_width r) (fun j => B.lane bc (Z.of_nat gf + j) (x_dat_w x))
                    (Z.to_nat (reg_len r))) /\
   (forall j, (j <= R)%nat -> B.o_ack (wb_out_at bc mc tr (t0 + j)) = false) /\
-  B.o_ack (wb_out_at bc mc tr (t0 + R + 1)) = true.
+  B.o_ack (wb_out_at bc mc tr (t0 + R + 1)) = true /\
+  BP.idle (fst (cstate_at bc mc tr (t0 + R + 2))).
 Proof.
   intros Hwf Hmwf Hfit Hidle Hreq x R Hword Hk Hinw Hsel Hwe Hwr gf ge. subst x R gf ge.
   split; [exact (g_bounds bc mc tr t0 Hwf Hmwf k r Hk Hinw)|].
@@ -434,7 +437,8 @@ Theorem atomic_read_through_mux bc mc tr t0 k r :
      M.word (M.c_dw mc) (M.r_width r) (Z.of_nat i - Z.of_nat gf)
             (trunc (M.r_width r) (nth k (x_rvals (tr (t0 + gf)%nat)) 0))) /\
   (forall j, (j <= R)%nat -> B.o_ack (wb_out_at bc mc tr (t0 + j)) = false) /\
-  B.o_ack (wb_out_at bc mc tr (t0 + R + 1)) = true.
+  B.o_ack (wb_out_at bc mc tr (t0 + R + 1)) = true /\
+  BP.idle (fst (cstate_at bc mc tr (t0 + R + 2))).
 Proof.
   intros Hwf Hmwf Hfit Hidle Hreq x R Hword Hk Hinw Hsel Hre Hrd gf ge. subst x R gf ge.
   split; [exact (g_bounds bc mc tr t0 Hwf Hmwf k r Hk Hinw)|].
@@ -488,7 +492,8 @@ Theorem atomic_write_whole_word bc mc tr t0 k r :
      nth_error (M.o_wstb (elem_out_at bc mc tr (t0 + j))) k = Some (j =? R)%nat) /\
   nth_error (M.o_wdata (elem_out_at bc mc tr (t0 + R))) k = Some (trunc (M.r_width r) (x_dat_w x)) /\
   (forall j, (j <= R)%nat -> B.o_ack (wb_out_at bc mc tr (t0 + j)) = false) /\
-  B.o_ack (wb_out_at bc mc tr (t0 + R + 1)) = true.
+  B.o_ack (wb_out_at bc mc tr (t0 + R + 1)) = true /\
+  BP.idle (fst (cstate_at bc mc tr (t0 + R + 2))).
 Proof.
   intros Hwf Hmwf Hfit Hidle Hreq x R Hword Hk Hfill Hall Hwe Hwr Hwidth.
   pose proof (atomic_write_through_mux bc mc tr t0 k r Hwf Hmwf Hfit Hidle Hreq Hword Hk
@@ -524,7 +529,8 @@ Theorem atomic_read_whole_word bc mc tr t0 k r :
      B.lane bc (Z.of_nat i) (B.o_dat_r (wb_out_at bc mc tr (t0 + R + 1))) =
      M.word (M.c_dw mc) (M.r_width r) (Z.of_nat i) (trunc (M.r_width r) (nth k (x_rvals x) 0))) /\
   (forall j, (j <= R)%nat -> B.o_ack (wb_out_at bc mc tr (t0 + j)) = false) /\
-  B.o_ack (wb_out_at bc mc tr (t0 + R + 1)) = true.
+  B.o_ack (wb_out_at bc mc tr (t0 + R + 1)) = true /\
+  BP.idle (fst (cstate_at bc mc tr (t0 + R + 2))).
 Proof.
   intros Hwf Hmwf Hfit Hidle Hreq x R Hword Hk Hfill Hall Hre Hrd.
   pose proof (atomic_read_through_mux bc mc tr t0 k r Hwf Hmwf Hfit Hidle Hreq Hword Hk
